@@ -112,33 +112,35 @@ def revDigits : Nat → Nat → List Nat
 /-- `u128::to_string` -/
 def decDigits (n : Nat) : Bytes := ((revDigits (n + 1) n).reverse).map fun d => 0x30 + d.toUInt8
 
-/-- `{"amount":"` -/
-def kAmount : Bytes := [0x7b, 0x22, 0x61, 0x6d, 0x6f, 0x75, 0x6e, 0x74, 0x22, 0x3a, 0x22]
-/-- `","denom":` -/
-def kDenom : Bytes := [0x22, 0x2c, 0x22, 0x64, 0x65, 0x6e, 0x6f, 0x6d, 0x22, 0x3a]
-/-- `,"receiver":` -/
-def kReceiver : Bytes := [0x2c, 0x22, 0x72, 0x65, 0x63, 0x65, 0x69, 0x76, 0x65, 0x72, 0x22, 0x3a]
-/-- `,"sender":` -/
-def kSender : Bytes := [0x2c, 0x22, 0x73, 0x65, 0x6e, 0x64, 0x65, 0x72, 0x22, 0x3a]
-/-- `,"memo":` -/
-def kMemo : Bytes := [0x2c, 0x22, 0x6d, 0x65, 0x6d, 0x6f, 0x22, 0x3a]
+/-- the field names as `SerializeStruct::serialize_field` writes them (`key.as_bytes()`, no escaping) -/
+def keyAmount : Bytes := [0x61, 0x6d, 0x6f, 0x75, 0x6e, 0x74]
+def keyDenom : Bytes := [0x64, 0x65, 0x6e, 0x6f, 0x6d]
+def keyReceiver : Bytes := [0x72, 0x65, 0x63, 0x65, 0x69, 0x76, 0x65, 0x72]
+def keySender : Bytes := [0x73, 0x65, 0x6e, 0x64, 0x65, 0x72]
+def keyMemo : Bytes := [0x6d, 0x65, 0x6d, 0x6f]
+def keyResult : Bytes := [0x72, 0x65, 0x73, 0x75, 0x6c, 0x74]
+def keyError : Bytes := [0x65, 0x72, 0x72, 0x6f, 0x72]
 
-/-- `to_json_binary(&Ics20Packet)` -/
+/-- `"key":value` -/
+def field (key val : Bytes) : Bytes := 0x22 :: (key ++ (0x22 :: 0x3a :: val))
+
+/-- `Uint128::serialize` = `serialize_str(&self.to_string())` -/
+def amountTok (n : Nat) : Bytes := 0x22 :: (decDigits n ++ [0x22])
+
+/-- `to_json_binary(&Ics20Packet)`: `{`, the fields in struct order separated by `,` (the memo only when it is
+`Some`), `}` -/
 def encodePacketBytes (p : Packet) : Bytes :=
-  kAmount ++ (decDigits p.amount ++ (kDenom ++ (encStr p.denom ++ (kReceiver ++ (encStr p.receiver ++
-    (kSender ++ (encStr p.sender ++
-      ((match p.memo with | none => [] | some m => kMemo ++ encStr m) ++ [0x7d]))))))))
+  0x7b :: (field keyAmount (amountTok p.amount) ++ (0x2c :: (field keyDenom (encStr p.denom) ++
+    (0x2c :: (field keyReceiver (encStr p.receiver) ++ (0x2c :: (field keySender (encStr p.sender) ++
+      ((match p.memo with | none => [] | some m => 0x2c :: field keyMemo (encStr m)) ++ [0x7d]))))))))
 
-/-- `{"result":"MQ=="}` = `ack_success()` -/
-def ackSuccessBytes : Bytes :=
-  [0x7b, 0x22, 0x72, 0x65, 0x73, 0x75, 0x6c, 0x74, 0x22, 0x3a, 0x22, 0x4d, 0x51, 0x3d, 0x3d, 0x22, 0x7d]
-/-- `{"error":` -/
-def kError : Bytes := [0x7b, 0x22, 0x65, 0x72, 0x72, 0x6f, 0x72, 0x22, 0x3a]
+/-- `"MQ=="`: base64 of `b"1"` -/
+def b64One : Bytes := [0x22, 0x4d, 0x51, 0x3d, 0x3d, 0x22]
 
-/-- `ack_success()` / `ack_fail(text)` -/
+/-- `ack_success()` = `{"result":"MQ=="}` / `ack_fail(text)` = `{"error":"<text>"}` (`serialize_newtype_variant`) -/
 def encodeAckBytes : Ack → Bytes
-  | .success => ackSuccessBytes
-  | .error t => kError ++ (encStr t ++ [0x7d])
+  | .success => 0x7b :: (field keyResult b64One ++ [0x7d])
+  | .error t => 0x7b :: (field keyError (encStr t) ++ [0x7d])
 
 /-! ## Deserialisation: lexical level -/
 
